@@ -24,6 +24,7 @@ var DefaultPatterns = []string{
 	"github.com/pojntfx/stfs/internal/db/sqlite/models/metadata",
 	ModelPkg,
 	"github.com/mattetti/filebuffer",
+	"github.com/spf13/afero",
 	"archive/tar",
 	"strings",
 	"path",
